@@ -13,6 +13,30 @@ namespace c08
     extern uint8_t *malloc_ptr;
 }
 
+
+typedef void (*caller_fn)(char *, char *, size_t, int, char *, int, long *);
+#define CALLER_DECL(p)                                                                                                                          \
+    extern "C" void p##strlen(char *, char *, size_t, int, char *, int, long *), p##strnlen(char *, char *, size_t, int, char *, int, long *),  \
+        p##strcmp(char *, char *, size_t, int, char *, int, long *), p##strncmp(char *, char *, size_t, int, char *, int, long *),              \
+        p##strcasecmp(char *, char *, size_t, int, char *, int, long *), p##strncasecmp(char *, char *, size_t, int, char *, int, long *),      \
+        p##strchr(char *, char *, size_t, int, char *, int, long *), p##strrchr(char *, char *, size_t, int, char *, int, long *),              \
+        p##strchrnul(char *, char *, size_t, int, char *, int, long *), p##strstr(char *, char *, size_t, int, char *, int, long *),            \
+        p##strcasestr(char *, char *, size_t, int, char *, int, long *), p##strspn(char *, char *, size_t, int, char *, int, long *),           \
+        p##strcspn(char *, char *, size_t, int, char *, int, long *), p##strpbrk(char *, char *, size_t, int, char *, int, long *),             \
+        p##memcmp(char *, char *, size_t, int, char *, int, long *), p##memchr(char *, char *, size_t, int, char *, int, long *),               \
+        p##memrchr(char *, char *, size_t, int, char *, int, long *);                                                                           \
+    extern "C" long p##loop_strlen(char *);
+CALLER_DECL(igc_caller_)
+CALLER_DECL(igc_callernb_)
+#define CALLER_TAB(p) {p##strlen, p##strnlen, p##strcmp, p##strncmp, p##strcasecmp, p##strncasecmp, p##strchr, p##strrchr, p##strchrnul, p##strstr, p##strcasestr, p##strspn, p##strcspn, p##strpbrk, p##memcmp, p##memchr, p##memrchr}
+static caller_fn caller_entry(int f, int nb)
+{
+    static const caller_fn T0[17] = CALLER_TAB(igc_caller_), T1[17] = CALLER_TAB(igc_callernb_);
+    return nb ? T1[f] : T0[f];
+}
+typedef long (*loop_fn)(char *);
+static loop_fn caller_loop(int nb) { return nb ? igc_callernb_loop_strlen : igc_caller_loop_strlen; }
+
 static int MA = 0, MB = 0; // distance of operand a / b from the guard (alignment sweeps); 0 = flush
 
 enum
@@ -627,7 +651,7 @@ MC_INIT
     });
 
     // (5) longer strings at every distance 0..7 from the guard (= every alignment) for both operands
-    mc::add_check("str_long_aligned", [] {
+    auto body_str_long_aligned = [] {
         init_arenas();
         int c0 = mc::choose(41 * 8);
         int len = c0 / 8;
@@ -725,12 +749,19 @@ MC_INIT
         MA = MB = 0;
         mc::more_cases(calls - 1, calls - 1);
         flush_notes();
+    };
+    mc::add_check("str_long_aligned", body_str_long_aligned);
+    // the same with the const operands of every call mapped read-only during the call
+    mc::add_check("str_long_aligned.readonly", [body_str_long_aligned] {
+        RO_ON = true;
+        body_str_long_aligned();
+        RO_ON = false;
     });
     // (6) LARGE operands: lengths around 128, 256, 1000 (thorough: around 32768, 65536, 70000) - a length, index or
     //     counter narrowed to 8 or 16 bits is invisible below 256 / 65536. Two NUL-free patterns (period-251 counting
     //     bytes, so bytes 256 apart differ; all 'a'), a target byte / difference at positions 0,1,254..257,len-1,
     //     n arguments 0,1,254..257,len-1,len,len+1,SIZE_MAX.
-    mc::add_check("str_large", [] {
+    auto body_str_large = [] {
         init_arenas();
         std::vector<size_t> LS = large_lengths();
         int c0 = mc::choose((int)LS.size() * 2 * 6);
@@ -896,6 +927,13 @@ MC_INIT
         if (calls)
             mc::more_cases(calls - 1, calls - 1);
         flush_notes();
+    };
+    mc::add_check("str_large", body_str_large);
+    // the same with the const operands of every call mapped read-only during the call
+    mc::add_check("str_large.readonly", [body_str_large] {
+        RO_ON = true;
+        body_str_large();
+        RO_ON = false;
     });
 
     // (7) HISTORY: every stateless str* function called 65600 times in ONE process (fresh at the start of the case), each
@@ -980,6 +1018,94 @@ MC_INIT
         unsigned long calls = ncalls - c_before;
         if (calls)
             mc::more_cases(calls - 1, calls - 1);
+        flush_notes();
+    });
+
+    // (8) CALLERS: a caller TU compiled at -O2 against the BUNDLED headers (with and without -fno-builtin) calls each
+    //     read-only routine, changes one operand byte in place and calls it again: both results must be the routine's
+    //     results for the operand as it was at each call (a declaration attribute in the bundled header that lets the
+    //     optimiser merge the two calls is a defect of the library although every routine is right on its own)
+    mc::add_check("callers_recompute_after_modification", [] {
+        init_arenas();
+        struct Row
+        {
+            const char *fn;
+            const char *a, *b;
+            size_t n;
+            int c;
+            int patch_at, patch_val; // in a
+        };
+        static const Row ROWS[17] = {
+            {"strlen", "ab,cd,ab", "", 0, 0, 3, 0},          {"strnlen", "ab,cd,ab", "", 6, 0, 3, 0},        {"strcmp", "ab,cd,ab", "ab,cd,ab", 0, 0, 3, 'x'},
+            {"strncmp", "ab,cd,ab", "ab,cd,ab", 5, 0, 3, 'x'}, {"strcasecmp", "ab,cd,ab", "AB,CD,AB", 0, 0, 3, 'x'}, {"strncasecmp", "ab,cd,ab", "AB,CD,AB", 5, 0, 3, 'x'},
+            {"strchr", "ab,cd,ab", "", 0, 'd', 3, 0},         {"strrchr", "ab,cd,ab", "", 0, 'b', 3, 0},      {"strchrnul", "ab,cd,ab", "", 0, 'd', 3, 0},
+            {"strstr", "ab,cd,ab", "cd", 0, 0, 3, 0},         {"strcasestr", "ab,cd,ab", "CD", 0, 0, 3, 0},   {"strspn", "ab,cd,ab", "ab,c", 0, 0, 3, 0},
+            {"strcspn", "ab,cd,ab", "d", 0, 0, 3, 0},         {"strpbrk", "ab,cd,ab", "xd", 0, 0, 3, 0},      {"memcmp", "ab,cd,ab", "ab,cd,ab", 8, 0, 4, 'x'},
+            {"memchr", "ab,cd,ab", "", 8, 'd', 4, 'x'},       {"memrchr", "ab,cd,ab", "", 8, 'b', 7, 'x'}};
+        int c0 = mc::choose(17 * 2 * 2);
+        const Row &r = ROWS[c0 / 4];
+        int nb = (c0 / 2) % 2;
+        PL = c0 % 2;
+        mc::describe("caller (-O2%s, bundled headers): %s(\"%s\"...) ; a[%d] = 0x%02x ; the same call again", nb ? " -fno-builtin" : "", r.fn, r.a, r.patch_at, r.patch_val);
+        mc::nontrivial();
+        size_t al = strlen(r.a), bl = strlen(r.b);
+        setK(r.fn, (const uint8_t *)r.a, al + 1, (const uint8_t *)r.b, bl + 1);
+        K.cls = "caller_calls_twice_around_a_store";
+        K.ro = 0;
+        char *ai = (char *)I[0].put(r.a, al + 1, PL), *ar = (char *)R[0].put(r.a, al + 1, PL);
+        char *bi = (char *)I[1].put(r.b, bl + 1, PL), *br = (char *)R[1].put(r.b, bl + 1, PL);
+        long want[2], got[2] = {-99, -99};
+        for (int k = 0; k < 2; k++)
+        {
+            char *a = ar, *b = br;
+            size_t n = r.n;
+            int c = r.c;
+            int f = c0 / 4;
+            auto offp = [&](const void *p) { return p ? (long)((const char *)p - a) : -1L; };
+            switch (f)
+            {
+            case 0: want[k] = (long)strlen(a); break;
+            case 1: want[k] = (long)strnlen(a, n); break;
+            case 2: want[k] = sgn(strcmp(a, b)); break;
+            case 3: want[k] = sgn(strncmp(a, b, n)); break;
+            case 4: want[k] = sgn(strcasecmp(a, b)); break;
+            case 5: want[k] = sgn(strncasecmp(a, b, n)); break;
+            case 6: want[k] = offp(strchr(a, c)); break;
+            case 7: want[k] = offp(strrchr(a, c)); break;
+            case 8: want[k] = offp(strchrnul(a, c)); break;
+            case 9: want[k] = offp(strstr(a, b)); break;
+            case 10: want[k] = offp(strcasestr(a, b)); break;
+            case 11: want[k] = (long)strspn(a, b); break;
+            case 12: want[k] = (long)strcspn(a, b); break;
+            case 13: want[k] = offp(strpbrk(a, b)); break;
+            case 14: want[k] = sgn(memcmp(a, b, n)); break;
+            case 15: want[k] = offp(memchr(a, c, n)); break;
+            default: want[k] = offp(memrchr(a, c, n)); break;
+            }
+            ar[r.patch_at] = (char)r.patch_val;
+        }
+        if (want[0] == want[1])
+            mc::harness_error("caller row %s: the modification does not change the result", r.fn);
+        CALL(caller_entry(c0 / 4, nb)(ai, bi, r.n, r.c, ai + r.patch_at, r.patch_val, got));
+        bool cmpfn = (c0 / 4 >= 2 && c0 / 4 <= 5) || c0 / 4 == 14;
+        for (int k = 0; k < 2; k++)
+            if ((cmpfn ? sgn((int)got[k]) : got[k]) != want[k])
+                bad("result", "call %d returned %ld, the routine's result for the operand at that moment is %ld (first call %ld, second call %ld)", k + 1, got[k], want[k], want[0], want[1]);
+        if (c0 / 4 == 0)
+        {
+            // strlen in a loop condition while the loop shortens the string
+            I[0].put(r.a, al + 1, PL);
+            long steps = -1;
+            setK("strlen", (const uint8_t *)r.a, al + 1);
+            K.cls = "caller_loop_condition";
+            K.ro = 0;
+            CALL(steps = caller_loop(nb)(ai));
+            if (steps != (long)al)
+                bad("result", "while (strlen(a) > 0) a[strlen(a)-1] = 0 ran %ld times, want %zu", steps, al);
+        }
+        mc::outcome(mc::fmt("%s %ld->%ld", r.fn, want[0], want[1]));
+        PL = AFTER;
+        mc::more_cases(1, 1);
         flush_notes();
     });
 }
